@@ -596,6 +596,9 @@ def cases(tier):
         if "/abc" in mname and quick:
             continue
         cs.append(axes_case(mname, mk, accepts="Poly" not in mname))
+    # four input variables: reorderings that keep the outer variables and permute the inner ones
+    ABCD = A * B2 * C * tp.spaces.R1("d")
+    cs.append(perm_case("FCN-tanh/abcd/u1", lambda env: symbolize(env, FCN(ABCD, U1, hidden=(2,), activations=nn.Tanh())), (2,)))
     # narrow residual polynomial network (every hidden layer of width 1) and two batch axes for permuted inputs
     narrow = lambda env: symbolize(env, Polynomial_FCN(SPACES["xt"], U1, polynomial_degree=1, hidden=(1, 1), res_connection=True))
     cs.append(rows_case("Poly-d1-res-h1x1/xt/u1", narrow, 2))
